@@ -27,24 +27,48 @@ Proof.
   destruct first; [rewrite zp_emit|rewrite zp_trim, zp_emit, zp_emit_tabs, zp_emit]; apply IH.
 Qed.
 
+Ltac case_out o :=
+  destruct o as [|?a [|?b ?o']]; try reflexivity;
+  match goal with a : Z |- _ => destruct a as [|?pa|?na]; try reflexivity;
+    repeat (match goal with pa : positive |- _ => destruct pa as [pa|pa|]; try reflexivity end) end;
+  match goal with b : Z |- _ => destruct b as [|?pb|?nb]; try reflexivity;
+    repeat (match goal with pb : positive |- _ => destruct pb as [pb|pb|]; try reflexivity end) end.
+
+Lemma newline_nil o m : newline (mkP o [] m) =
+  emit_tabs (match drop_blanks o with
+             | [] => mkP (drop_blanks o) [] m
+             | 10 :: 10 :: _ => mkP (drop_blanks o) [] m
+             | _ => emit [10] (mkP (drop_blanks o) [] m)
+             end).
+Proof. reflexivity. Qed.
+
+Lemma zp_nl_tail o m : zp (emit_tabs (match drop_blanks o with
+             | [] => mkP (drop_blanks o) [] m
+             | 10 :: 10 :: _ => mkP (drop_blanks o) [] m
+             | _ => emit [10] (mkP (drop_blanks o) [] m)
+             end)) = emit_tabs (match drop_blanks o with
+             | [] => mkP (drop_blanks o) [] m
+             | 10 :: 10 :: _ => mkP (drop_blanks o) [] m
+             | _ => emit [10] (mkP (drop_blanks o) [] m)
+             end).
+Proof.
+  generalize (drop_blanks o) as d. intros d. destruct d as [|a [|b d']]; try reflexivity.
+  - destruct a as [|pa|na]; try reflexivity. repeat (destruct pa as [pa|pa|]; try reflexivity).
+  - destruct a as [|pa|na]; try reflexivity. repeat (destruct pa as [pa|pa|]; try reflexivity);
+    destruct b as [|pb|nb]; try reflexivity; repeat (destruct pb as [pb|pb|]; try reflexivity).
+Qed.
+
 Lemma zp_newline p : newline (zp p) = zp (newline p).
 Proof.
-  unfold newline. cbn [zp ps_comment]. destruct (ps_comment p) as [|c cs] eqn:Ec.
-  - cbn [map]. change (mkP (ps_out p) [] (ps_margin p)) with (zp (mkP (ps_out p) [] (ps_margin p))) at 1.
-    assert (Ep : zp p = zp (mkP (ps_out p) [] (ps_margin p))) by (unfold zp; rewrite Ec; reflexivity).
-    unfold zp at 1 2 3. cbn [ps_out ps_comment ps_margin map trim]. unfold trim. cbn [ps_out ps_comment ps_margin].
-    rewrite Ec. cbn [map]. destruct (drop_blanks (ps_out p)) as [|a [|b o]]; try reflexivity.
-    destruct a as [|pa|na]; try reflexivity. repeat (destruct pa as [pa|pa|]; try reflexivity).
-    destruct b as [|pb|nb]; try reflexivity. repeat (destruct pb as [pb|pb|]; try reflexivity).
-  - change (map zc (c :: cs)) with (map zc (c :: cs)). cbn [map].
-    pose proof (zp_flush (c :: cs) true (emit [32] p)) as Hf. cbn [map] in Hf.
-    assert (Ez : emit [32] (mkP (ps_out p) (zc c :: map zc cs) (ps_margin p)) = zp (emit [32] p)).
-    { unfold zp, emit. cbn [ps_out ps_comment ps_margin]. rewrite Ec. reflexivity. }
-    rewrite Ez, Hf. set (q := flush_comments true (c :: cs) (emit [32] p)).
-    unfold zp, trim, emit_tabs, emit. cbn [ps_out ps_comment ps_margin map].
-    destruct (drop_blanks (ps_out q)) as [|a [|b o]]; try reflexivity.
-    destruct a as [|pa|na]; try reflexivity. repeat (destruct pa as [pa|pa|]; try reflexivity).
-    destruct b as [|pb|nb]; try reflexivity. repeat (destruct pb as [pb|pb|]; try reflexivity).
+  destruct p as [o cs m]. unfold zp at 1. cbn [ps_out ps_comment ps_margin].
+  destruct cs as [|c cs].
+  - cbn [map]. rewrite newline_nil, zp_nl_tail. reflexivity.
+  - unfold newline. cbn [ps_comment map].
+    pose proof (zp_flush (c :: cs) true (emit [32] (mkP o (c :: cs) m))) as Hf. cbn [map] in Hf.
+    change (emit [32] (mkP o (zc c :: map zc cs) m)) with (emit [32] (zp (mkP o (c :: cs) m))).
+    rewrite zp_emit, Hf. set (q := flush_comments true (c :: cs) (emit [32] (mkP o (c :: cs) m))).
+    cbn [zp ps_out ps_margin]. unfold trim. cbn [ps_out ps_comment ps_margin].
+    symmetry. apply zp_nl_tail.
 Qed.
 
 Lemma zp_before_loop : forall cs p, before_loop (map zc cs) (zp p) = zp (before_loop cs p).
